@@ -58,10 +58,14 @@ def replay_members(w, rec):
   ops = [(j, e) for j in (True, False) for e in eps]
   join = lambda s, m: s._LoadBalancerSink__OnServerSetJoin(m)
   leave = lambda s, m: s._LoadBalancerSink__OnServerSetLeave(m)
-  for initial in ([], ['a'], ['a', 'b']):
+  for initial in ([], ['a'], ['a', 'b'], ['a', 'a'], ['b', 'a', 'b']):
     for hist in itertools.product(ops, repeat=4):
       sink = _mk(initial)
       ref = set(initial)
+      heap_eps, keys = _state(sink)
+      if heap_eps != sorted(ref) or keys != sorted(ref):
+        bad.append('initial list %r: dispatch targets %r, _servers %r' % (initial, heap_eps, keys))
+        break
       for is_join, e in hist:
         try:
           (join if is_join else leave)(sink, _Member(e))
